@@ -271,7 +271,7 @@ func runC14(r *Run) {
 	lockset := r.Rule("C14.lockset", "every access to a field of Agent other than the mutex (field loads/stores, every use of the loaded map, and every access to the backing array of a slice loaded from a field, followed through reslices/phis/appends) outside the constructor holds that agent's mutex", 30)
 	atomic := r.Rule("C14.atomic", "each Agent method that touches shared state has exactly one critical section (one Lock site, not in a loop) containing all its shared accesses", 6)
 	release := r.Rule("C14.release", "every path from a Lock of the agent mutex to a return passes the matching Unlock (direct or deferred)", 6)
-	nocall := r.Rule("C14.nocall", "while the agent mutex is held only builtins, map operations, pure stdlib predicates and lock-free module leaves are called; single documented exception: Close invokes the handler", 2)
+	nocall := r.Rule("C14.nocall", "while the agent mutex is held only builtins, map operations, pure stdlib predicates and lock-free module leaves are called (Close's handler call is the one site that does not comply: known finding D19)", 2)
 
 	closeMethods := map[*ssa.Function]bool{}
 	for _, fn := range m.Methods {
@@ -391,7 +391,11 @@ func runC14(r *Run) {
 			}
 			// dynamic / interface call
 			if _, f := loadedField(cc.Value); f == m.Handler && closeMethods[fn] {
-				return // documented exception: Close emits the closed events under the lock
+				// Close emits the closed events under the lock. The property exempts a handler that calls
+				// back into the agent from inside Close, but not what else follows from the lock being
+				// held around user code: recorded as a finding (known_findings.txt), see DESIGN.md D19
+				nocall.Violation(fn, instrPos(in), "handler invoked under the mutex", "Close calls the user's handler while holding the agent mutex: a handler that takes a lock of its own and, for events of Stop/Process/Collect, calls back into the agent deadlocks against a concurrent Close (Stop holds the user's lock and waits for the agent mutex, Close holds the agent mutex and waits for the user's lock); a handler that panics leaves the agent locked for good")
+				return
 			}
 			nocall.Violation(fn, instrPos(in), desc, "function value or interface method invoked while the agent mutex is held: a handler that calls back into the agent deadlocks")
 		})
